@@ -429,3 +429,10 @@ def cq_obs(obs):
     o = obs["outcome"]
     outcome = "(inl %s)" % cq_val(o[1]) if o[0] == "ret" else "(inr (%s))" % cq_exn(o[1])
     return "(%s, %s)" % (trace, outcome)
+
+
+def gen_many(rng, n, profile="mixed"):
+    """n cases cycling through every callable kind x sync/async so that each cell is populated."""
+    g = Gen(rng, profile)
+    cells = [(k, a) for k in KINDS for a in ((False, True) if k in ASYNC_OK else (False,))]
+    return [g.case(kind=cells[i % len(cells)][0], is_async=cells[i % len(cells)][1]) for i in range(n)]
